@@ -77,9 +77,17 @@ def run(ctx):
     exprs, meta = [], []
 
     def decode_words(dec, words, n, k):
-        x = torch.tensor([fec.int_to_bits(w, n) for w in words], dtype=torch.float32)
-        out = quiet(dec, x)
-        return [fec.bits_to_int(r) for r in out.tolist()], out
+        # bounded batches: the brute-force decoder materialises (words x 2^k x n) distances
+        per = 4096
+        if type(dec).__name__ == "BruteForceMLDecoder":
+            per = max(16, min(4096, int(1.5e8 // ((1 << min(k, 24)) * n))))
+        got, outs = [], []
+        for i in range(0, len(words), per):
+            x = torch.tensor([fec.int_to_bits(w, n) for w in words[i:i + per]], dtype=torch.float32)
+            out = quiet(dec, x)
+            got += [fec.bits_to_int(r) for r in out.tolist()]
+            outs.append(out)
+        return got, (torch.cat(outs) if outs else torch.zeros(0, k))
 
     def bounded_clause(code, decname, dec, enc, n, k, gs, t, base, rep, BUDGET=BUDGET):
         """decode(enc(m)+e) == m for weight(e) <= t"""
